@@ -66,10 +66,10 @@ def plan(tier, seed):
             out.append({"name": f"lattice-{name}#{start}", "kind": "lattice", "lattice": name, "start": start,
                         "n": min(chunk, total - start), "total": total, "seed": seed, "tier": tier})
     if tier == "quick":
-        kinds = {"random": 8000, "from_random": 600, "exact": 2500}
+        kinds = {"random": 8000, "from_random": 600, "exact": 2500, "crowd": 4}
         per = 1000
     else:
-        kinds = {"random": 600000, "from_random": 20000, "exact": 150000}
+        kinds = {"random": 600000, "from_random": 20000, "exact": 150000, "crowd": 80}
         per = 15000
     return out + common.shards(kinds, per_shard=per, tier=tier, seed=seed)
 
@@ -387,6 +387,17 @@ def gen(rng, kind, tier):
             g = {"family": "cart", "bounds": [[lo * 0.5, lo * 0.5 + float(n)]] * dim, "shape": [2 * n] * dim, "periodic": per}
         return {"droplets": drops, "d_min": float(rng.choice([0.0, 0.0, 0.25, -0.25, 0.5, 1.0])), "grid": g, "exact": True,
                 "cls": str(rng.choice(["SphericalDroplet", "DiffuseDroplet"]))}
+    if kind == "crowd":
+        # a crowd: hundreds of droplets on a jittered lattice whose neighbours are closer than the minimal distance
+        dim = 2
+        nx = int(rng.integers(17, 20))
+        a = float(rng.uniform(2.2, 3.0))
+        lo = float(rng.choice([0.0, -40.0, 1000.0]))
+        drops = [[lo + a * i + float(rng.uniform(-0.1, 0.1)), lo + a * j + float(rng.uniform(-0.1, 0.1)), float(rng.uniform(0.85, 1.0))]
+                 for i in range(nx) for j in range(nx)]
+        order = rng.permutation(len(drops))
+        drops = [drops[int(i)] for i in order]
+        return {"droplets": drops, "d_min": float(rng.choice([1.0, 0.8, 0.6, 0.0])), "grid": None, "cls": "SphericalDroplet", "crowd": True}
     if kind == "random":
         dim = int(rng.choice([1, 2, 2, 3]))
         n = int(rng.integers(0, 9))
